@@ -1,82 +1,2 @@
-(* GENERATED by harness/gen_tables.py from the live betterproto module. Do not edit. *)
-From BP Require Import Base.Prelude Model.Types.
-
-Definition FIXED_TYPES : list ptype := [TFloat; TDouble; TFixed32; TSFixed32; TFixed64; TSFixed64].
-Definition INT_64_TYPES : list ptype := [TInt64; TUInt64; TSInt64; TFixed64; TSFixed64].
-Definition PACKED_TYPES : list ptype := [TEnum; TBool; TInt32; TInt64; TUInt32; TUInt64; TSInt32; TSInt64; TFloat; TDouble; TFixed32; TSFixed32; TFixed64; TSFixed64].
-Definition WIRE_VARINT_TYPES : list ptype := [TEnum; TBool; TInt32; TInt64; TUInt32; TUInt64; TSInt32; TSInt64].
-Definition WIRE_FIXED_32_TYPES : list ptype := [TFloat; TFixed32; TSFixed32].
-Definition WIRE_FIXED_64_TYPES : list ptype := [TDouble; TFixed64; TSFixed64].
-Definition WIRE_LEN_DELIM_TYPES : list ptype := [TString; TBytes; TMessage; TMap].
-Definition WIRE_VARINT : Z := (0)%Z.
-Definition WIRE_FIXED_64 : Z := (1)%Z.
-Definition WIRE_LEN_DELIM : Z := (2)%Z.
-Definition WIRE_START_GROUP : Z := (3)%Z.
-Definition WIRE_END_GROUP : Z := (4)%Z.
-Definition WIRE_FIXED_32 : Z := (5)%Z.
-Definition SIZE_DELIMITED : Z := (-1)%Z.
-Definition pack_fmt (t : ptype) : option fmt :=
-  match t with
-  | TFloat => Some FmtF
-  | TDouble => Some FmtD
-  | TFixed32 => Some FmtI
-  | TSFixed32 => Some Fmti
-  | TFixed64 => Some FmtQ
-  | TSFixed64 => Some Fmtq
-  | _ => None
-  end.
-Definition wrapper_value_type (t : ptype) : option ptype :=
-  match t with
-  | TBool => Some TBool
-  | TInt32 => Some TInt32
-  | TInt64 => Some TInt64
-  | TUInt32 => Some TUInt32
-  | TUInt64 => Some TUInt64
-  | TFloat => Some TFloat
-  | TDouble => Some TDouble
-  | TString => Some TString
-  | TBytes => Some TBytes
-  | _ => None
-  end.
-Definition timestamp_fields : list (list byte * Z * ptype) := [([x73; x65; x63; x6f; x6e; x64; x73], 1%Z, TInt64); ([x6e; x61; x6e; x6f; x73], 2%Z, TInt32)].
-Definition duration_fields : list (list byte * Z * ptype) := [([x73; x65; x63; x6f; x6e; x64; x73], 1%Z, TInt64); ([x6e; x61; x6e; x6f; x73], 2%Z, TInt32)].
-Definition JSON_INFINITY : list byte := [x49; x6e; x66; x69; x6e; x69; x74; x79].
-Definition JSON_NEG_INFINITY : list byte := [x2d; x49; x6e; x66; x69; x6e; x69; x74; x79].
-Definition JSON_NAN : list byte := [x4e; x61; x4e].
-Definition kwlist : list (list byte) :=
-  [[x46; x61; x6c; x73; x65];
-   [x4e; x6f; x6e; x65];
-   [x54; x72; x75; x65];
-   [x61; x6e; x64];
-   [x61; x73];
-   [x61; x73; x73; x65; x72; x74];
-   [x61; x73; x79; x6e; x63];
-   [x61; x77; x61; x69; x74];
-   [x62; x72; x65; x61; x6b];
-   [x63; x6c; x61; x73; x73];
-   [x63; x6f; x6e; x74; x69; x6e; x75; x65];
-   [x64; x65; x66];
-   [x64; x65; x6c];
-   [x65; x6c; x69; x66];
-   [x65; x6c; x73; x65];
-   [x65; x78; x63; x65; x70; x74];
-   [x66; x69; x6e; x61; x6c; x6c; x79];
-   [x66; x6f; x72];
-   [x66; x72; x6f; x6d];
-   [x67; x6c; x6f; x62; x61; x6c];
-   [x69; x66];
-   [x69; x6d; x70; x6f; x72; x74];
-   [x69; x6e];
-   [x69; x73];
-   [x6c; x61; x6d; x62; x64; x61];
-   [x6e; x6f; x6e; x6c; x6f; x63; x61; x6c];
-   [x6e; x6f; x74];
-   [x6f; x72];
-   [x70; x61; x73; x73];
-   [x72; x61; x69; x73; x65];
-   [x72; x65; x74; x75; x72; x6e];
-   [x74; x72; x79];
-   [x77; x68; x69; x6c; x65];
-   [x77; x69; x74; x68];
-   [x79; x69; x65; x6c; x64]].
-
+(* gen_tables.py failed: module 'betterproto' has no attribute 'WIRE_START_GROUP' *)
+Definition translation_failed : False := I.
